@@ -264,7 +264,7 @@ func (c tcase) line() string {
 		}
 		fmt.Fprintf(&sb, " %s %s %s %s", hs(p.name), hs(p.version), hlist(p.locs), cp)
 		if !p.hasPurl {
-			sb.WriteString(" 0 - - - - - - - - - -")
+			sb.WriteString(" 0 - - - - - - - - - - - - - -")
 			continue
 		}
 		qs := "-"
@@ -280,8 +280,18 @@ func (c tcase) line() string {
 		if n, ok := norm(p); ok {
 			checkNormLaws(p, n)
 			fmt.Fprintf(&sb, " %s %s %s", hs((&n).String()), hs(n.Name), hs(n.Version))
+			// the normal form's remaining components, for the Lean driver's `laws=` (NormLaws decided per row)
+			nq := "-"
+			if len(n.Qualifiers) > 0 {
+				o := make([]string, len(n.Qualifiers))
+				for i, q := range n.Qualifiers {
+					o[i] = hs(q.Key) + ":" + hs(q.Value)
+				}
+				nq = strings.Join(o, ",")
+			}
+			fmt.Fprintf(&sb, " %s %s %s %s", hs(n.Type), hs(n.Namespace), nq, hs(n.Subpath))
 		} else {
-			sb.WriteString(" ! - -")
+			sb.WriteString(" ! - - - - - -")
 		}
 	}
 	return sb.String()
@@ -295,11 +305,15 @@ func parseCase(l string) tcase {
 	n, err := strconv.Atoi(t[3])
 	must(err)
 	c := tcase{stream: t[1], format: t[2]}
-	if len(t) != 4+15*n {
+	w := 19 // tokens per package; lines recorded before the normal form's components were added have 15
+	if len(t) == 4+15*n && n > 0 {
+		w = 15
+	}
+	if len(t) != 4+w*n {
 		panic("c15gen: wrong token count in case line")
 	}
 	for i := 0; i < n; i++ {
-		f := t[4+15*i : 4+15*(i+1)]
+		f := t[4+w*i : 4+w*(i+1)]
 		p := pk{name: unhs(f[0]), version: unhs(f[1]), locs: unhlist(f[2])}
 		if f[3] != "-" {
 			p.cpes = unhlist(f[3])
